@@ -735,13 +735,11 @@ pub fn sched_specs(prop: &str, tier: &str) -> Vec<HistSpec> {
             // write or fdatasync, then a crash at every state (the acknowledged
             // prefix must survive, whatever the failure did to the worker)
             {
-                let fault_shapes: Vec<Vec<Sym>> = vec![
-                    vec![Sym::A, Sym::F],
-                    vec![Sym::A, Sym::F, Sym::F],
-                    vec![Sym::A, Sym::A, Sym::F],
-                    vec![Sym::A, Sym::F, Sym::W, Sym::A],
-                    vec![Sym::A, Sym::Pfirst, Sym::F, Sym::F],
-                ];
+                let mut fault_shapes: Vec<Vec<Sym>> = vec![vec![Sym::A, Sym::F], vec![Sym::A, Sym::F, Sym::F], vec![Sym::A, Sym::F, Sym::W, Sym::A]];
+                if thorough {
+                    fault_shapes.push(vec![Sym::A, Sym::A, Sym::F]);
+                    fault_shapes.push(vec![Sym::A, Sym::Pfirst, Sym::F, Sym::F]);
+                }
                 let mut hs: Vec<Vec<SOp>> = fault_shapes.iter().map(|s| schedx::from_syms(s)).collect();
                 if thorough {
                     for len in 1..=3 {
@@ -751,6 +749,9 @@ pub fn sched_specs(prop: &str, tier: &str) -> Vec<HistSpec> {
                 }
                 for h in hs {
                     for c in [Cfg::records(2), Cfg::records(3)] {
+                        if !thorough && h.len() >= 4 && c.max_records == Some(2) {
+                            continue;
+                        }
                         let mut s = base_spec(prop, h.clone(), c);
                         s.crash = true;
                         s.o_c03 = prop == "C03";
@@ -1039,7 +1040,9 @@ pub fn sched_specs(prop: &str, tier: &str) -> Vec<HistSpec> {
                         f.o_c08 = true;
                         f.max_faults = if thorough && len <= 3 { 2 } else { 1 };
                         f.fault_policy = FaultPolicy::WorkerEio;
-                        if thorough || len <= 2 || (len == 3 && c.max_records == Some(2) && h.iter().filter(|o| matches!(o, SOp::Flush)).count() == 1) {
+                        // (the four-operation shape `Aup T Pbeyond F` rides along with len == 3 in
+                        // the quick tier: crash oracle only there, faults in the thorough tier)
+                        if thorough || len <= 2 || (len == 3 && h.len() == 3 && c.max_records == Some(2) && h.iter().filter(|o| matches!(o, SOp::Flush)).count() == 1) {
                             out.push(f);
                         }
                     }
